@@ -76,8 +76,10 @@ fn oracle(ctx: &Ctx<'_>, stats: &mut ShardStats) -> Vec<(String, String)> {
     for part in partitions(lits.len()) {
         let blocks = part.iter().max().map(|m| m + 1).unwrap_or(1);
         // every injective assignment of names to blocks from a 5-name pool is a lot; rotate through all starting points and both directions
-        for start in 0..names.len() {
-            for rev in [false, true] {
+        // programs with many literals have hundreds of partitions: two name assignments each instead of ten
+        let many = lits.len() > 4;
+        for start in (0..names.len()).filter(|s| !many || *s == 0 || *s == 3) {
+            for rev in [false, true].into_iter().filter(|r| !many || !*r) {
                 let pick = |b: usize| if rev { names[(start + names.len() - b) % names.len()] } else { names[(start + b) % names.len()] };
                 let mut files = vec![];
                 for b in 0..blocks {
@@ -88,6 +90,30 @@ fn oracle(ctx: &Ctx<'_>, stats: &mut ShardStats) -> Vec<(String, String)> {
                 let fnames = files.iter().map(|f| f.0.clone()).collect();
                 p.files = files;
                 variants.push((format!("split{part:?}@{start}{}", if rev { "r" } else { "" }), p, fnames));
+            }
+        }
+    }
+    // one file per literal, compiled three times in fresh states: artifacts and the complete diagnostics (with
+    // locations and excerpts) must be identical (cross-file order, e.g. of duplicate definitions, is only
+    // reachable with several files)
+    {
+        let mut p = ctx.program.project();
+        p.files = lits.iter().enumerate().map(|(i, (e, l))| (format!("{}{i}.ts", ["m", "B", "z", "a"][i % 4]), source_file(&[(e.as_deref(), l.clone())]))).collect();
+        p.write_to(&vdir);
+        let render = |r: &Compiled| match r {
+            Compiled::Ok(a) => format!("OK {a:?}"),
+            Compiled::Diagnostics(d) => format!("DIAG {d:?}"),
+            Compiled::Panic(m) => format!("PANIC {m}"),
+        };
+        let first = render(&driver::compile_dir(&vdir));
+        for r in 0..2 {
+            *stats.extra.entry("variants".into()).or_default() += 1;
+            let again = render(&driver::compile_dir(&vdir));
+            if again != first {
+                let at = first.bytes().zip(again.bytes()).position(|(x, y)| x != y).unwrap_or(0);
+                let lo = at.saturating_sub(120);
+                fails.push(("nondeterministic-repeat:one-file-per-literal".to_string(), format!("repeat {r} of the identical multi-file project differs: ...{} vs ...{}", &first[first.floor_char_boundary(lo)..first.floor_char_boundary((at + 80).min(first.len()))], &again[again.floor_char_boundary(lo)..again.floor_char_boundary((at + 80).min(again.len()))])));
+                break;
             }
         }
     }
@@ -128,7 +154,7 @@ pub fn main(args: &Args) -> i32 {
         return sweep::replay(args);
     }
     let mut ev = Evidence::new(args, "exploration");
-    let families = vec![Family { menu: Menu::General, k: args.tier.pick(3, 4) }, Family { menu: Menu::Abstract, k: args.tier.pick(3, 4) }, Family { menu: Menu::Cycles, k: args.tier.pick(1, 2) }, Family { menu: Menu::Pointers, k: args.tier.pick(3, 4) }];
+    let families = vec![Family { menu: Menu::General, k: args.tier.pick(3, 4) }, Family { menu: Menu::Abstract, k: args.tier.pick(3, 4) }, Family { menu: Menu::Cycles, k: args.tier.pick(1, 2) }, Family { menu: Menu::Pointers, k: args.tier.pick(2, 4) }, Family { menu: Menu::Dups, k: 4 }];
     let res = sweep::run(args, families);
     let mut verdict = Verdict::new("C14");
     for v in res.violations {
